@@ -67,7 +67,8 @@ pub enum CaseDesc {
     Name { label: String },
 }
 
-pub const TOPO_CLASSES: [&str; 3] = ["Folder", "Part", "ZzUnknown"];
+/// index 3 (a service class) is only used by `service_topo_cases`
+pub const TOPO_CLASSES: [&str; 4] = ["Folder", "Part", "ZzUnknown", "Workspace"];
 
 fn vt_by_name(name: &str) -> VariantType {
     for t in vals::xml_types() {
@@ -777,6 +778,30 @@ pub fn topo_cases(max_nodes: usize, class_count: u8) -> Vec<CaseDesc> {
                             how,
                         });
                     }
+                }
+            }
+        }
+    }
+    out
+}
+
+/// Forests whose nodes are Folders or instances of a service class (Workspace), at every
+/// depth and under every root selection: the binary format writes service classes in
+/// their own INST object format.
+pub fn service_topo_cases(max_nodes: usize) -> Vec<CaseDesc> {
+    let mut out = Vec::new();
+    let mut how = 0u8;
+    for n in 1..=max_nodes {
+        for parents in forests(n) {
+            let mut sels: Vec<Option<Vec<usize>>> = vec![None];
+            for s in root_selections(&parents, 3) {
+                sels.push(Some(s));
+            }
+            for code in 1..(1usize << n) {
+                let classes: Vec<u8> = (0..n).map(|i| if (code >> i) & 1 == 1 { 3 } else { 0 }).collect();
+                for roots in &sels {
+                    how = how.wrapping_add(1);
+                    out.push(CaseDesc::Topo { parents: parents.clone(), classes: classes.clone(), roots: roots.clone(), feature: Feature::Ref { a: 0, t: 0 }, how });
                 }
             }
         }
